@@ -112,7 +112,27 @@ def run_point(case, seed=0):
     except Exception as e:
         return f"malformed_output:{type(e).__name__}", None
     rec = {"rec": "output", "det": case["det"], "n": len(X), "p": case["p"], "sparse": sparse, "frame_ok": bool(ok), **lim}
+    rec["searched"] = searched(case, det, len(X))
     return "OK", rec
+
+
+def searched(case, det, n):
+    """Config.SearchRangesNonEmpty observed on the code: how many candidates did the search of an OK grid point visit?
+    The detector is run once more on strictly convex data (x_i = i^2 + column offset): every admissible split separates
+    two windows with different means, so a split that was scored has a non-zero score, and one that was not keeps the 0
+    the score array was initialised with.  -1: not applicable / not observable."""
+    d = case["det"]
+    if d not in ("MovingWindow", "SeededBinarySegmentation", "CircularBinarySegmentation"):
+        return -1
+    Z = pd.DataFrame({j: [float(i * i + 3 * j + (i % 3) * (i % 2)) for i in range(n)] for j in range(case["p"])})
+    try:
+        det.fit(Z).predict(Z)
+        sc = det.scores
+    except Exception:
+        return -1   # e.g. a scorer that cannot score this data: the outcome classes above are judged on the grid data
+    if d == "MovingWindow":
+        return int(np.count_nonzero(np.asarray(sc, dtype=float)))
+    return int(len(sc))
 
 
 def judge(expected, observed):
@@ -143,6 +163,7 @@ def run(tier: str) -> int:
         sl = [chk.seed % nsl, (chk.seed + 5) % nsl, (chk.seed + 11) % nsl] if tier == "quick" else None
         cases = stages.emit_cases(chk, "Config", dict(Bound="code"), wd=wd, label="B:grid", nslices=nsl, slices=sl)
         outputs = []
+        nsearch = 0
         with ProcessPoolExecutor(max_workers=stages.NCPU) as ex:
             chunks = [cases[i::64] for i in range(64) if cases[i::64]]
             for chunk, ress in zip(chunks, ex.map(_chunk, [(c, chk.seed) for c in chunks])):
@@ -156,7 +177,17 @@ def run(tier: str) -> int:
                         chk.violation({"stage": "B", "case": case, "observed": observed}, clause,
                                       {"clause": clause, "det": case["det"], "expect": case["expect"], "observed": observed,
                                        **{k: case[k] for k in ("scale", "scale2", "m", "loff", "growth", "level", "mxoff", "bw", "lohi", "ms", "nan")}})
+                    if rec is not None and case.get("search", 0) > 0 and rec["searched"] >= 0:
+                        nsearch += 1
+                        if rec["searched"] == 0:
+                            clause = "valid_configuration_searches_no_candidate"
+                            chk.violation({"stage": "B", "case": case, "observed": "OK, but no candidate position was scored"}, clause,
+                                          {"clause": clause, "det": case["det"], "bw": case["bw"], "m": case["m"], "loff": case["loff"]})
+                        elif case["det"] == "MovingWindow" and rec["searched"] != case["search"] and len(chk.drift) < 3:
+                            chk.spec_drift(f"moving window scored {rec['searched']} positions where Config.SearchCount gives "
+                                           f"{case['search']} (n={case['n']}, bandwidth={case['bw']})")
                     if rec is not None:
+                        rec.pop("searched", None)
                         rec["id"] = "o-" + key
                         outputs.append(rec)
         # C04's predicate on every OK output
@@ -166,6 +197,7 @@ def run(tier: str) -> int:
             if v and v != "ok":
                 clause = v.split(":", 1)[1]
                 chk.violation({"stage": "C", "output": rec, "verdict": v}, clause, {"clause": clause, "det": rec["det"]})
+    chk.extra["ok_grid_points_with_observed_search_range"] = nsearch
     chk.exhaustive = tier == "thorough"
     return chk.finish()
 
